@@ -73,7 +73,7 @@ func (t FTy) toProto(env EnumEnv) *schema_j5pb.Field {
 		}
 		return &schema_j5pb.Field{Type: &schema_j5pb.Field_Integer{Integer: f}}
 	case TStr:
-		f := &schema_j5pb.StringField{}
+		f := &schema_j5pb.StringField{Format: t.SFormat}
 		if r := t.Str; r != nil {
 			f.Rules = &schema_j5pb.StringField_Rules{Pattern: r.Pat, MinLength: r.Min, MaxLength: r.Max}
 		}
@@ -166,7 +166,7 @@ func (t FTy) toProto(env EnumEnv) *schema_j5pb.Field {
 		}
 		return &schema_j5pb.Field{Type: &schema_j5pb.Field_Timestamp{Timestamp: f}}
 	case TAny:
-		f := &schema_j5pb.AnyField{}
+		f := &schema_j5pb.AnyField{OnlyDefined: t.AnyOD, Types: t.AnyT}
 		if l != nil {
 			f.ListRules = &list_j5pb.AnyRules{Filtering: filtering(l)}
 		}
@@ -223,6 +223,7 @@ func ftyFromProto(f *schema_j5pb.Field) (FTy, bool) {
 		if t.String_ == nil {
 			return out, true
 		}
+		out.SFormat = t.String_.Format
 		if r := t.String_.Rules; r != nil {
 			out.Str = &StrRules{Pat: r.Pattern, Min: r.MinLength, Max: r.MaxLength}
 		}
@@ -291,7 +292,7 @@ func ftyFromProto(f *schema_j5pb.Field) (FTy, bool) {
 	case *schema_j5pb.Field_Timestamp:
 		return FTy{Kind: TTimestamp, List: lpayFromMsg(t.Timestamp.ListRules)}, true
 	case *schema_j5pb.Field_Any:
-		return FTy{Kind: TAny, List: lpayFromMsg(t.Any.ListRules)}, true
+		return FTy{Kind: TAny, AnyOD: t.Any.OnlyDefined, AnyT: t.Any.Types, List: lpayFromMsg(t.Any.ListRules)}, true
 	case *schema_j5pb.Field_Object:
 		return FTy{Kind: TObject, Flatten: t.Object.Flatten}, true
 	case *schema_j5pb.Field_Oneof:
@@ -888,6 +889,10 @@ func asymmetryClass(p genDecl) (string, []string) {
 	switch {
 	case p.P.PK == PMap && t.List != nil:
 		return "C04 map: list rules of the item schema are written on the entry's value field and not read back", []string{item}
+	case t.Kind == TStr && t.SFormat != nil:
+		return "C04 string format: StringField.format is not written to the descriptor and does not read back", []string{item + ".string.format"}
+	case t.Kind == TAny && (t.AnyOD || len(t.AnyT) > 0) && p.P.PK != PSingle:
+		return "C04 array of any with onlyDefined / types: (j5.ext.v1.field).any is replaced by the array annotation", []string{item + ".any.onlyDefined", item + ".any.types"}
 	case t.Kind == TKey && t.KF == KCustom:
 		return "C04 key:custom: the pattern is written as (buf.validate.field).string.pattern and not read back as a key format", []string{item + ".key", item + ".string"}
 	case t.Kind == TKey && t.KF == KInformal:
